@@ -67,7 +67,8 @@ func (c *Ctx) writeSigs(pkgs []string, fileFilter func(string) bool) []writeSig 
 					continue
 				}
 				set := map[string]bool{}
-				for _, s := range own.Dedup(c.P, e.WritesParam(fn, i)) {
+				// every sink, not one representative per call site: which one own.Dedup keeps depends on positions
+				for _, s := range e.WritesParam(fn, i) {
 					if s.Origin().Field == "" {
 						continue // a write whose target the engine cannot name: its wording depends on how the code is written
 					}
